@@ -375,13 +375,44 @@ def dtype_inherit(ctx, obs, prefixes: Sequence[str], rule='DTYPE') -> int:
             if isinstance(s, ast.Assign) and isinstance(s.targets[0], ast.Name):
                 local.setdefault(s.targets[0].id, []).append(s.value)
 
+        loop_targets = {}
+        for s in ast.walk(f.node):
+            if isinstance(s, (ast.For, ast.comprehension)):
+                it, tg = s.iter, s.target
+                if isinstance(it, ast.Call) and _leafname(it.func) == 'enumerate' and it.args and isinstance(tg, ast.Tuple) and len(tg.elts) == 2:
+                    it, tg = it.args[0], tg.elts[1]
+                if isinstance(tg, ast.Name):
+                    loop_targets.setdefault(tg.id, []).append(it)
+                else:
+                    for x in ast.walk(tg):
+                        if isinstance(x, ast.Name):
+                            loop_targets.setdefault(x.id, []).append(None)
+        opaque = set()       # names bound by something other than a plain assignment / a loop over a known iterable
+        for s in ast.walk(f.node):
+            if isinstance(s, (ast.With, ast.ExceptHandler, ast.NamedExpr)) or (isinstance(s, ast.Assign) and not isinstance(s.targets[0], ast.Name)):
+                for x in ast.walk(s.targets[0] if isinstance(s, ast.Assign) else s):
+                    if isinstance(x, ast.Name) and isinstance(x.ctx, ast.Store):
+                        opaque.add(x.id)
+
         def selection_of(v, root, depth=0):
-            """v only selects elements of the array rooted at `root` (through indexing, views, locals bound to such)"""
+            """v only selects elements of the array rooted at `root` (through indexing, views, locals bound to such, iteration over
+            such): True / False / None (the origin of v is not visible: a name bound by unpacking, a with-target ...)"""
             if isinstance(v, ast.Name):
                 if v.id == root:
                     return True
-                vals = local.get(v.id)
-                return bool(vals) and depth < 4 and all(selection_of(x, root, depth + 1) for x in vals)
+                if depth >= 6:
+                    return None
+                vals = list(local.get(v.id) or [])
+                res = [selection_of(x, root, depth + 1) for x in vals]
+                for it in loop_targets.get(v.id, []):
+                    res.append(None if it is None else selection_of(it, root, depth + 1))   # an element of a selection is a selection
+                if v.id in opaque or not res:
+                    return None
+                if any(r is False for r in res):
+                    return False
+                return None if any(r is None for r in res) else True
+            if isinstance(v, (ast.GeneratorExp, ast.ListComp)):
+                return selection_of(v.elt, root, depth + 1)
             if isinstance(v, ast.Constant):
                 return False
             rr = v
@@ -418,7 +449,9 @@ def dtype_inherit(ctx, obs, prefixes: Sequence[str], rule='DTYPE') -> int:
             if is_copy and any(isinstance(s.targets[0].slice if isinstance(s, ast.Assign) else s.target.slice, ast.Constant)
                                and isinstance((s.targets[0].slice if isinstance(s, ast.Assign) else s.target.slice).value, str) for s in stores):
                 continue          # a dict copy filled by key
-            bad = [s for s in stores if not any(selection_of(s.value, r0) for r0 in roots)
+            verdicts = {id(s): [selection_of(s.value, r0) for r0 in roots] for s in stores}
+            undecided = [s for s in stores if not any(v is True for v in verdicts[id(s)]) and any(v is None for v in verdicts[id(s)])]
+            bad = [s for s in stores if not any(v is True for v in verdicts[id(s)]) and s not in undecided
                    and not (isinstance(s.value, ast.Constant) and isinstance(s, ast.Assign) and s.value.value in (0, 1, False, True))]
             if is_copy:
                 # a copy of the input legitimately receives edited values of the same kind; only values that are float whatever the
@@ -428,7 +461,9 @@ def dtype_inherit(ctx, obs, prefixes: Sequence[str], rule='DTYPE') -> int:
                     n -= 1
                     continue
             con = f'buffer `{name}` typed like `{norm(src)[:40]}` only receives elements of that array'
-            if not bad:
+            if not bad and undecided and not is_copy:
+                obs.unk(rule, q, con, f'the origin of `{norm(undecided[0].value)[:60]}` stored into the buffer is not visible', where(prog, f, undecided[0]))
+            elif not bad:
                 obs.ok(rule, q, con, f'`{norm(st)[:70]}`', where(prog, f, st))
             else:
                 obs.bad(rule, q, con, f'`{norm(st)[:80]}` takes its dtype from the input, but `{norm(bad[0])[:80]}` stores computed values: '
